@@ -251,6 +251,91 @@ def r6(ctx):
         raise AnchorError("FragmentInfo::new not called from the assembler")
 
 
+def one_body(prog, rx):
+    m = [b for b in prog.bodies_matching(rx) if "::tests::" not in b.path]
+    if len(m) != 1:
+        raise AnchorError("body anchor %r matched %d bodies" % (rx, len(m)))
+    return m[0]
+
+
+def r7(ctx):
+    """A SELECT arms the OPERATE only when its overall status is Success (R4): that status is the fold, by first_error, of the
+    status answered for EVERY object and every header -- an object answered with an error that is not folded in would let a
+    partly rejected SELECT arm the OPERATE."""
+    prog = ctx.prog
+
+    def accumulator(bd, sym, key):
+        # the returned Ok(acc): acc is written only as Success (initially) and by first_error(acc, _)
+        rets = [(b, e) for b, si, st, e in ret_sites(bd, sym) if e[0] == "agg" and e[2] == "Ok"]
+        if len(rets) != 1:
+            raise AnchorError("%s: expected one Ok(..) return, found %d" % (bd.path, len(rets)))
+        acc = agg_field(rets[0][1], "0")
+        ctx.check(acc[0] == "var", key + ":returns-accumulator", "returns Ok(%s)" % expr_str(acc), bd.where(rets[0][0].idx))
+        if acc[0] != "var":
+            return None
+        locs = bd.local_by_name(acc[1])
+        for l in locs:
+            for blk, si in bd.defs.get(l, []):
+                if blk not in bd.live_blocks():
+                    continue
+                if si == "term":
+                    e = sym.call_expr(bd.blocks[blk].term)
+                    ok = e[0] == "call" and (e[1] or "").endswith("first_error") and e[2][0] == acc
+                else:
+                    e = sym.rvalue_expr(bd.blocks[blk].stmts[si].rv)
+                    ok = (e[0] == "agg" and e[2] == "Success") or (e[0] == "call" and (e[1] or "").endswith("first_error") and e[2][0] == acc)
+                ctx.check(ok, key + ":accumulator-writes", "%s = %s" % (acc[1], expr_str(e)[:100]), bd.where(blk), bad_detail="the status accumulator is overwritten by %s" % expr_str(e)[:120])
+        return acc
+
+    for fn_ in ("collection::select_header_with_response", "collection::operate_header_with_response"):
+        bd = prog.body(fn_)
+        sym = ctx.sym(bd)
+        name = fn_.split("::")[-1]
+        nexts = call_sites(bd, r"::next$")
+        ws = call_sites(bd, r"ControlType::with_status$")
+        fe = call_sites(bd, r"CommandStatus::first_error$|extensions::first_error$|::first_error$")
+        if len(nexts) != 1 or not ws or not fe:
+            raise AnchorError("%s: loop head/with_status/first_error not found (%d/%d/%d)" % (fn_, len(nexts), len(ws), len(fe)))
+        acc = accumulator(bd, sym, name)
+        for i, w in enumerate(ws):
+            S = sym.call_expr(w.term)[2][1]
+            through = {f.idx for f in fe if sym.call_expr(f.term)[2][1] == S and (acc is None or sym.call_expr(f.term)[2][0] == acc)}
+            # within one iteration: folded after the answer is written, or already before it
+            ok = bool(through) and (must_pass(bd, w.idx, nexts[0].idx, through) or must_pass(bd, bd.cfg[0][nexts[0].idx][0], w.idx, through))
+            ctx.check(ok, "%s:answered-status-folded#%d" % (name, i + 1), "the status answered (%s) is folded into the returned status before the next object" % expr_str(S)[:80], bd.where(w.idx), bad_detail="an object is answered with status %s that is not folded into the returned status: the request as a whole can still report Success" % expr_str(S)[:80])
+    for fn_, callee in (("ControlCollection::select_with_response", r"ControlHeader::select_with_response$"), ("ControlCollection::operate_with_response", r"ControlHeader::operate_with_response$")):
+        bd = prog.body(fn_)
+        sym = ctx.sym(bd)
+        name = "collection." + fn_.split("::")[-1]
+        nexts = call_sites(bd, r"::next$")
+        hs = call_sites(bd, callee)
+        fe = call_sites(bd, r"::first_error$")
+        if len(nexts) != 1 or len(hs) != 1 or not fe:
+            raise AnchorError("%s: loop head/header call/first_error not found" % fn_)
+        acc = accumulator(bd, sym, name)
+        through = {f.idx for f in fe if mentions_call(sym.call_expr(f.term)[2][1], callee) and (acc is None or sym.call_expr(f.term)[2][0] == acc)}
+        ok = bool(through) and must_pass(bd, hs[0].idx, nexts[0].idx, through)
+        ctx.check(ok, name + ":header-status-folded", "every header's status is folded into the returned status", bd.where(hs[0].idx))
+    # first_error keeps the first non-success
+    fb = one_body(prog, r"CommandStatus>::first_error$")
+    fs = ctx.sym(fb)
+    issucc = lambda x: mentions(x, lambda s_: s_[0] == "agg" and s_[2] == "Success")
+    succ = lambda t: g_any(g_bool(lambda x: mentions_call(x, r"is_success$"), t), g_rel("Eq" if t else "Ne", ("param", "self"), issucc))
+    n = 0
+    for b, si, st, e in ret_sites(fb, fs):
+        n += 1
+        if e == ("param", "other"):
+            ctx.require_guards(fb, b.idx, [("self.is_success()", succ(True))], "first_error:other", "returning `other`")
+        else:
+            ctx.check(mentions(e, lambda s_: s_ == ("param", "self")), "first_error:self", "returns %s" % expr_str(e), fb.where(b.idx))
+            ctx.require_guards(fb, b.idx, [("!self.is_success()", succ(False))], "first_error:self", "returning `self`")
+    ctx.check(n == 2, "first_error:shape", "first_error has two results", fb.where(line=fb.line))
+    ib = one_body(prog, r"CommandStatus>::is_success$")
+    es = [e for b, si, st, e in ret_sites(ib, ctx.sym(ib))]
+    ok = len(es) == 1 and mentions(es[0], lambda s_: s_[0] == "agg" and s_[2] == "Success") and mentions(es[0], lambda s_: s_ == ("param", "self"))
+    ctx.check(ok, "is_success", "is_success = %s" % (expr_str(es[0]) if es else "?"), ib.where(line=ib.line))
+
+
 RULES = [
     ("C04.R1", "T2", "every SelectState field is tested on the way to match_operate's Ok", r1),
     ("C04.R2", "T2", "actuation in handle_operate only under select is Some and match_operate is Ok", r2),
@@ -258,4 +343,5 @@ RULES = [
     ("C04.R4", "T2+T5", "writers of SessionState::select; update_frame_id only on RepeatNonRead", r4),
     ("C04.R5", "T3", "every exit of OutstationSession::run passes SessionState::reset", r5),
     ("C04.R6", "T5/T8", "fragment id counts every assembled fragment", r6),
+    ("C04.R7", "T7", "the status that arms OPERATE folds the status answered for every object and header", r7),
 ]
